@@ -36,5 +36,12 @@ def jobs(tier):
     mir = [Job('harness.sampler_file:mirror',
                dict(m=[1, 1], explored=True, end_exp=[1, 1], n_batch=nb, K=1),
                pkg_key='sampler', max_paths=8000) for nb in (1, 2)]
+    # counter in every evaluation mode (harness of C03: n_like equals the
+    # number of points passed to the likelihood after two batches)
+    ev = [Job('harness.sampler_eval:two_batches',
+              dict(vectorized=vec, prior=prior, blobs=None, n_batch=nb),
+              pkg_key='sampler')
+          for vec in (False, True)
+          for prior in ('fn', 'prior_dict', 'prior_array') for nb in (1, 2)]
     return (common.run_jobs(tier, ['C10']) +
-            common.add_samples_jobs(tier, ['C10']) + mir)
+            common.add_samples_jobs(tier, ['C10']) + mir + ev)
